@@ -308,23 +308,37 @@ func newGood(s *srv, id int) goodPeer {
 	case "tcp":
 		c, err := net.DialTimeout("tcp4", s.addr, rto)
 		if err != nil {
-			rec.Die("dial tcp: %v", err)
+			return deadPeer{} // the server does not accept: recorded as an unanswered request, judged by TLC
 		}
 		return &tcpPeer{c: c, id: id}
 	case "dtls":
-		cc, err := dtls.Dial(s.addr, pskConfig())
+		// the context also becomes the connection's context: cancel it only if the handshake is still stuck after rto
+		ctx, cancel := context.WithCancel(context.Background())
+		timer := time.AfterFunc(rto, cancel)
+		cc, err := dtls.Dial(s.addr, pskConfig(), options.WithContext(ctx))
+		if !timer.Stop() && err == nil {
+			_ = cc.Close()
+			return deadPeer{}
+		}
 		if err != nil {
-			rec.Die("dial dtls: %v", err)
+			return deadPeer{}
 		}
 		return &libUDP{cc: cc, id: id}
 	default:
-		cc, err := tcp.Dial(s.addr, options.WithTLS(&tls.Config{RootCAs: tlsPool, ServerName: "localhost"}))
+		cc, err := tcp.Dial(s.addr, options.WithTLS(&tls.Config{RootCAs: tlsPool, ServerName: "localhost"}), options.WithDialer(&net.Dialer{Timeout: rto}))
 		if err != nil {
-			rec.Die("dial tls: %v", err)
+			return deadPeer{}
 		}
 		return &libTCP{cc: cc, id: id}
 	}
 }
+
+// deadPeer: a well-behaved peer that could not even connect (handshake never answered)
+type deadPeer struct{}
+
+func (deadPeer) request(int) (bool, bool, []byte) { return false, false, nil }
+func (deadPeer) localAddr() string                { return "" }
+func (deadPeer) close()                           {}
 
 // adversary: a socket of its own per adversary id (re-opened when the server or the peer closed it)
 type badPeer struct {
@@ -419,7 +433,7 @@ func runServer(transport string, evs []EvIn) Trace {
 		o := EvOut{E: e.E, P: e.P, C: e.C}
 		if e.E == "good" {
 			g := good[e.P]
-			if g == nil {
+			if _, dead := g.(deadPeer); g == nil || dead {
 				g = newGood(s, e.P)
 				good[e.P] = g
 			}
@@ -604,25 +618,47 @@ func Run(stimPath, out string) {
 	sc := bufio.NewScanner(fh)
 	sc.Buffer(make([]byte, 1<<20), 64<<20)
 	transports := []string{"udp", "tcp", "dtls", "tls"}
+	type job struct {
+		tr string
+		ev []EvIn
+	}
+	var jobs []job
 	i := 0
 	for sc.Scan() {
 		var st struct {
-			Ev []EvIn `json:"ev"`
+			Ev  []EvIn `json:"ev"`
+			All bool   `json:"all"` // directed interleaving: on every transport
 		}
 		if err := json.Unmarshal(sc.Bytes(), &st); err != nil {
 			rec.Die("stimulus: %v", err)
 		}
-		if rec.Tier() == "thorough" {
+		if rec.Tier() == "thorough" || st.All {
 			for _, t := range transports {
-				wr.Put(runServer(t, st.Ev))
+				jobs = append(jobs, job{t, st.Ev})
 			}
 		} else {
-			wr.Put(runServer(transports[i%2], st.Ev))
+			jobs = append(jobs, job{transports[i%2], st.Ev})
 			if i%4 == 0 {
-				wr.Put(runServer(transports[2+(i/4)%2], st.Ev))
+				jobs = append(jobs, job{transports[2+(i/4)%2], st.Ev})
 			}
 		}
 		i++
+	}
+	res := make([]Trace, len(jobs))
+	var wg sync.WaitGroup
+	sem := make(chan struct{}, 6) // every run has its own server and sockets
+	for k := range jobs {
+		wg.Add(1)
+		sem <- struct{}{}
+		go func(k int) {
+			defer wg.Done()
+			res[k] = runServer(jobs[k].tr, jobs[k].ev)
+			<-sem
+		}(k)
+	}
+	wg.Wait()
+	for _, t := range res {
+		wr.Put(t)
 	}
 	for k := 0; k < 3; k++ {
 		wr.Put(runDiscovery(rec.Seed() + int64(k)))
